@@ -3,6 +3,7 @@ lookup by number / by time, SegmentTimeline generation, startNumber, publishTime
 oracle of C01/C02/C04/C05 and bound to the real code by replaying its predictions.
 Property text: top of spec/LiveTimelineImplOps.tla."""
 import json
+import os
 import re
 import vlib
 from vlib import Check, MachineryError
@@ -30,7 +31,11 @@ def run(tier, replay=None):
     wk = 4
     # the GEN job gets the seed (thin sample away from the breakpoints)
     gencfg = c.work / f"LiveTimelineImpl_gen_{tier}.cfg"
-    gencfg.write_text(re.sub(r"Seed = \d+", f"Seed = {c.seed % 11}", (vlib.SPEC / "mc" / f"LiveTimelineImpl_gen_{tier}.cfg").read_text()))
+    # X03_FIX=1: the repository under test ($VERIF_REPO) carries proposed_fixes/X03-vod0-*.diff - predictions with Fix = TRUE
+    fixed = os.environ.get("X03_FIX", "") == "1"
+    txt = re.sub(r"Seed = \d+", f"Seed = {c.seed % 11}", (vlib.SPEC / "mc" / f"LiveTimelineImpl_gen_{tier}.cfg").read_text())
+    gencfg.write_text(txt.replace("Fix = FALSE", "Fix = TRUE") if fixed else txt)
+    c.extra["repository_with_proposed_vod0_fixes"] = fixed
     tmo = 600 if tier == "quick" else 1500
     jobs = [(MOD, f"LiveTimelineImpl_{tier}.cfg", dict(workers=wk, timeout=tmo, coverage=False)),
             (MOD, f"LiveTimelineImpl_vod0_{tier}.cfg", dict(workers=wk, timeout=tmo, coverage=False)),
@@ -39,7 +44,12 @@ def run(tier, replay=None):
             (MOD, "LiveTimelineImpl_cex_vod0_edge.cfg", dict(workers=1, expect="violation", expect_violated=("InvTimelineEdgeAll",), coverage=False)),
             (MOD, "LiveTimelineImpl_cex_vod0_served.cfg", dict(workers=1, expect="violation", expect_violated=("InvListedServedAll",), coverage=False)),
             (MOD, "LiveTimelineImpl_cex_vod0_time.cfg", dict(workers=1, expect="violation", expect_violated=("InvLookupTimeAll",), coverage=False)),
-            (MOD, "LiveTimelineImpl_cex_window_start.cfg", dict(workers=1, expect="violation", expect_violated=("ImplPtIdentifies",), coverage=False))]
+            (MOD, "LiveTimelineImpl_cex_window_start.cfg", dict(workers=1, expect="violation", expect_violated=("ImplPtIdentifies",), coverage=False)),
+            # observation (no oracle clause): a sub-ms availability instant right after AST is rounded down to AST
+            (MOD, "LiveTimelineImpl_cex_pt_subms.cfg", dict(workers=1, expect="violation", expect_violated=("ImplPtIdentifiesEdgeAll",), coverage=False))]
+    # the proposed fixes (proposed_fixes/X03-vod0-*.diff) transcribed: agreement with the oracle WITHOUT the vod0 restriction
+    jobs.append((MOD, f"LiveTimelineImpl_proposed_vod0_{tier}.cfg", dict(workers=wk, timeout=tmo, coverage=False)))
+    nfix = len(jobs)
     wit = ["NeverGone", "NeverMulti", "NeverRepeat", "NeverClip"]
     jobs += [(MOD, f"LiveTimelineImpl_witness_{w}.cfg", dict(workers=1, expect="violation", expect_violated=(w,), coverage=False)) for w in wit]
     res = c.models(jobs, parallel=4)
@@ -47,14 +57,15 @@ def run(tier, replay=None):
     for r in res[:2]:
         if r.depth < 20 or r.distinct < 1000:
             raise MachineryError(f"model vacuity: {r.distinct} states, depth {r.depth}")
-    for r, name in zip(res[3:7], ("InvTimelineEdgeAll", "InvListedServedAll", "InvLookupTimeAll", "ImplPtIdentifies")):
+    for r, name in zip(res[3:8], ("InvTimelineEdgeAll", "InvListedServedAll", "InvLookupTimeAll", "ImplPtIdentifies", "ImplPtIdentifiesEdgeAll")):
         if r.status == "ok":
             c.fidelity.append(f"as-written counterexample {name} no longer found: the code's deviation class may have been fixed - update the model's predicates")
-    for r, name in zip(res[7:], wit):
+    for r, name in zip(res[nfix:], wit):
         if name not in r.violated:
             raise MachineryError(f"model vacuity: witness {name} not reached")
     c.extra["design_counterexamples_code_as_written"] = {"vod0_edge": res[3].violated, "vod0_listed_not_served": res[4].violated,
-                                                         "vod0_time_lookup": res[5].violated, "window_start_publishTime": res[6].violated}
+                                                         "vod0_time_lookup": res[5].violated, "window_start_publishTime": res[6].violated,
+                                                         "sub_ms_publishTime_rounding": res[7].violated}
     c.exhaustive = True   # over the enumerated configuration sets and sampling schedules
     gen = vlib.tlc_printed_json(res[2], "GEN")
     if not gen:
@@ -66,8 +77,8 @@ def run(tier, replay=None):
     # (R)/(V) real code
     drive = vlib.build_harness(cmd="x03")
     trace = c.work / "x03.ndjson"
-    nseed = 8 if tier == "quick" else 150
-    st = vlib.run_driver(drive, ["-out", trace, "-work", c.work / "drv", "-gen", genf, "-seed", c.seed, "-n", nseed, "-par", 6])
+    nseed = 8 if tier == "quick" else 100
+    st = vlib.run_driver(drive, ["-out", trace, "-work", c.work / "drv", "-gen", genf, "-seed", c.seed, "-n", nseed, "-par", 6] + (["-fix"] if fixed else []))
     r, lines = c.validate_trace_parallel("LiveTimelineImpl_Trace", trace, chunks=8 if tier == "quick" else 12, timeout=1500)
     events = vlib.read_ndjson(trace)
     hdr_at, cur = {}, None
